@@ -86,6 +86,10 @@ def plan(tier):
             c0, c1 = sem_contract(op, L, R, 0), sem_contract(op, L, R, 1)
             jobs.append(Job('%s.L3.%s' % (PROP, tag), kname, P_PUBLIC, c0, replace=[(P_WRAPOP, c1)], layer=3, abstract_div=True, **common))
             jobs.append(Job('%s.L2.%s' % (PROP, tag), kname, P_WRAPOP, c1, replace=[(P_TAGOP, c1), (P_PLAIN, c1)], layer=2, abstract_div=True, **common))
+            # a tag-level custom_operator<divide_op|modulo_op, op_value<L,power<El>>, op_value<R,power<Er>>> with a body of its own does not
+            # exist on the pinned tree (the non-zero-degree specialisation inherits the plain operator); if one appears it is
+            # proved here instead of being assumed by the L2 replacement
+            jobs.append(Job('%s.L1.%s' % (PROP, tag), kname, P_TAGOP, c1, replace=[(P_PLAIN, c1)], layer=1, abstract_div=True, optional=True, **common))
             if max(L.bits, R.bits) <= 16:
                 jobs.append(Job('%s.L0.%s' % (PROP, tag), kname, P_PLAIN, leaf_contract(op, L, R), layer=0,
                                 shim=sname, shim_types=[l, r], oracle=sem_oracle(op, L, R), prop=PROP, via=sname,
